@@ -199,6 +199,22 @@ class Ctx:
         cands = [k for k in self.funcs if k.endswith("::" + name) or name.endswith("::" + k)]
         if len(cands) == 1:
             return self.funcs[cands[0]]
+        # `Type::<'_>::method` (inherent method call) -> `path::<impl at file:l:c>::method` whose signature mentions Type
+        plain = re.sub(r"::<[^<>]*(?:<[^<>]*>[^<>]*)*>", "", name)
+        if plain in self.funcs and not isinstance(self.funcs[plain], tuple):
+            return self.funcs[plain]
+        parts = plain.split("::")
+        if len(parts) >= 2:
+            ty, meth = parts[-2], parts[-1]
+            cands = []
+            for k, f in self.funcs.items():
+                if isinstance(f, tuple) or not k.endswith("::" + meth) or "{closure" in k:
+                    continue
+                sig = " ".join(t for _, t in f.args) + " " + f.ret_type
+                if re.search(r"\b%s\b" % re.escape(ty), sig):
+                    cands.append(k)
+            if len(cands) == 1:
+                return self.funcs[cands[0]]
         return None
 
 
@@ -254,6 +270,7 @@ class Exec:
         return v
 
     def detach(self, v, frame, frame_locals):
+        """A constant's value may point into the (now finished) frame that computed it: resolve such references deeply."""
         if isinstance(v, tuple) and v and v[0] == "ref":
             _, (kind, fid, local, proj) = v
             if fid != frame:
@@ -261,7 +278,13 @@ class Exec:
             val = frame_locals[local]
             for p in proj:
                 val = self.project(val, p, None)
-            return ("refval", val)
+            return ("refval", self.detach(val, frame, frame_locals))
+        if isinstance(v, tuple) and v and v[0] == "refval":
+            return ("refval", self.detach(v[1], frame, frame_locals))
+        if isinstance(v, tuple) and v and v[0] == "agg":
+            return ("agg", tuple(self.detach(x, frame, frame_locals) for x in v[1]))
+        if isinstance(v, tuple) and v and v[0] == "enum":
+            return ("enum", v[1], tuple(self.detach(x, frame, frame_locals) for x in v[2]))
         return v
 
     def eval_const(self, c, func):
@@ -279,6 +302,8 @@ class Exec:
             return ("refval", ConcStr(val))
         if kind == "zst":
             return ("closure", val, ())
+        if kind == "fnitem":
+            return ("closure", "fn(..) -> .. {%s}" % val, ())
         if kind == "named":
             m = re.fullmatch(r"[\w:<>, ()&']*::(Ok|Err|Some|None|Continue|Break)(?:\((.*)\))?", val)
             if m:
